@@ -18,6 +18,12 @@ search: the property's own oracle on the implementation's arrays (never a proof)
         the thorough tier, (all grids up to l <= 8) + (a seeded subset of the grids above B) + the corpus in quick.
         Every reported violation is also handed to the kernel as a `<grid>_refuted` theorem (grid_bad_wsum /
         grid_bad_lm, cost N*l).
+routes: every construction route and short histories at the smallest degrees of all four methods, each judged by the
+        same oracle and against the shipped file: cache=False / cache=True on cold module caches, after the degree was
+        cached, degree= and size= requests, and [construct; scale weights / move points of the returned arrays in
+        place; construct again] (caches cleared before each route, restored afterwards).
+broken tie: if the normalisation / loader extraction fails closed the sweep and the route checks still run and the
+        violation carries the first failing input that is not a listed known finding (Ctx.broken_tie).
 """
 from __future__ import annotations
 
@@ -35,7 +41,7 @@ from props import c12
 from vlib.core import SRC, Ctx, src_sha
 
 # cost bound B = N (d+1)^2 for the kernel-checked grids; measured: ~0.33 us * d per unit (vm_compute, BigZ)
-B_QUICK = 1_000_000
+B_QUICK = 400_000
 B_THOROUGH = 12_000_000
 TOL_INT = 1e-9
 TOL_SPHERE = 1e-13
@@ -333,28 +339,18 @@ def model_predicts(v, p, w, mode_m, size):
     return False
 
 
-def sweep_one(job):
-    """Runs in a worker process: evaluate the property on AngularGrid(degree=d, method=meth)."""
-    meth, d, size_tab, lmax = job
-    t0 = time.time()
-    res = {"method": meth, "degree": d, "size": size_tab, "lmax": lmax, "viol": []}
-    try:
-        import importlib
-
-        import grid.angular as ga
-        with warnings.catch_warnings():
-            warnings.simplefilter("ignore")
-            g = ga.AngularGrid(degree=d, method=meth, cache=False)
-        pts = np.array(g.points, dtype=np.float64)
-        wts = np.array(g.weights, dtype=np.float64)
-        res["attrs"] = (int(g.degree), int(g.size), int(pts.shape[0]), int(wts.shape[0]))
-    except Exception as e:  # noqa: BLE001
-        res["crash"] = f"{type(e).__name__}: {e}"[:300]
-        return res
-    if res["attrs"] != (d, size_tab, size_tab, size_tab):
-        res["viol"].append({"kind": "size", "observed": list(res["attrs"]), "expected": [d, size_tab, size_tab, size_tab]})
-        if pts.shape[0] != wts.shape[0] or pts.ndim != 2 or pts.shape[1] != 3:
+def oracle(pts, wts, attrs, d, size_tab, lmax):
+    """The property's own oracle on the arrays of one constructed grid: advertised size, unit sphere, weight sum and
+    all harmonics up to lmax (float64 sweep, every suspicious quantity re-evaluated in exact rational arithmetic).
+    Returns a dict with the list of violations (`viol`) and some statistics."""
+    res = {"viol": [], "attrs": attrs}
+    if attrs != (d, size_tab, size_tab, size_tab):
+        res["viol"].append({"kind": "size", "observed": list(attrs), "expected": [d, size_tab, size_tab, size_tab]})
+        if pts.ndim != 2 or pts.shape[1] != 3 or wts.ndim != 1 or pts.shape[0] != wts.shape[0]:
             return res
+    if not (np.all(np.isfinite(pts)) and np.all(np.isfinite(wts))):
+        res["viol"].append({"kind": "wsum", "observed": float("nan")})
+        return res
     x, y, z = pts[:, 0].copy(), pts[:, 1].copy(), pts[:, 2].copy()
     # points on the sphere (exact rational per point only if suspicious)
     r2 = x * x + y * y + z * z - 1.0
@@ -387,8 +383,134 @@ def sweep_one(job):
     res["worst"] = worst
     if first is not None:
         res["viol"].append({"kind": "lm", "l": first[0], "m": first[1], "observed": first[2]})
+    return res
+
+
+def grid_arrays(g):
+    pts = np.array(g.points, dtype=np.float64)
+    wts = np.array(g.weights, dtype=np.float64)
+    return pts, wts, (int(g.degree), int(g.size), int(pts.shape[0]), int(wts.shape[0]))
+
+
+def sweep_one(job):
+    """Runs in a worker process: evaluate the property on AngularGrid(degree=d, method=meth, cache=False)."""
+    meth, d, size_tab, lmax = job
+    t0 = time.time()
+    res = {"method": meth, "degree": d, "size": size_tab, "lmax": lmax, "viol": []}
+    try:
+        import grid.angular as ga
+        with warnings.catch_warnings():
+            warnings.simplefilter("ignore")
+            g = ga.AngularGrid(degree=d, method=meth, cache=False)
+        pts, wts, attrs = grid_arrays(g)
+    except Exception as e:  # noqa: BLE001
+        res["crash"] = f"{type(e).__name__}: {e}"[:300]
+        return res
+    res.update(oracle(pts, wts, attrs, d, size_tab, lmax))
     res["s"] = round(time.time() - t0, 2)
     return res
+
+
+VKIND = ["crash", "size", "wsum", "sphere", "lm"]
+
+
+def first_viol(vs):
+    return sorted(vs, key=lambda c: VKIND.index(c["kind"]))[0]
+
+
+def route_checks(ctx: Ctx, tabs):
+    """Every construction route and short histories, for all four methods at small degrees, each constructed grid judged
+    by the property oracle (size, unit sphere, weight sum, all harmonics up to the degree) and against the shipped file.
+    The four module caches are cleared before every route ("cold") and restored at the end.
+    Returns (violations, mismatches): lists of (key, observed, text, replay)."""
+    import grid.angular as ga
+
+    caches = [ga.LEBEDEV_CACHE, ga.SPHERICAL_CACHE, ga.MAX_DET_CACHE, ga.AHRENS_BEYLKIN_CACHE]
+    saved = [dict(c) for c in caches]
+
+    def cold():
+        for c in caches:
+            c.clear()
+
+    def build(meth, req, cache):
+        with warnings.catch_warnings():
+            warnings.simplefilter("ignore")
+            return ga.AngularGrid(method=meth, cache=cache, **req)
+
+    def edit(g):
+        # what a holder of the grid may do: turn it into a shell of radius 1.5 in place
+        w = g.weights
+        w *= 2.25
+        p = g.points
+        p *= 1.5
+
+    viols, mism = [], []
+    n = 0
+    try:
+        for meth, P, _, dirn in c12.METHODS:
+            t = tabs[f"{P}_DEGREES"]
+            degs = sorted(t)[: (3 if ctx.quick else 6)]
+            for d in degs:
+                size = t[d]
+                with np.load(file_path(meth, dirn, d, size)) as zf:
+                    fp, fw = np.array(zf["points"]), np.array(zf["weights"])
+                fw = np.repeat(fw, len(fp)) if len(fw) == 1 else fw
+                fsum = math.fsum(fw)
+                for rname, req in (("degree", {"degree": d}), ("size", {"size": size})):
+                    rq = ", ".join(f"{k}={v}" for k, v in req.items())
+                    routes = []  # (label, steps) ; a step is ("build", cache) or ("edit",) ; the last built grid is judged
+                    for c in (False, True):
+                        routes.append((f"cold;cache={c}", [("build", c)]))
+                        routes.append((f"cold;cache=True;then cache={c}", [("build", True), ("build", c)]))
+                        routes.append((f"cold;cache=False;then cache={c}", [("build", False), ("build", c)]))
+                        for c0 in (False, True):
+                            routes.append((f"cold;cache={c0};edit in place;then cache={c}", [("build", c0), ("edit",), ("build", c)]))
+                    routes.append(("cold;cache=True;edit in place;cache=True;edit in place;then cache=True",
+                                   [("build", True), ("edit",), ("build", True), ("edit",), ("build", True)]))
+                    for label, steps in routes:
+                        cold()
+                        n += 1
+                        ctx.case(("route", meth, d, rname, label))
+                        key = f"route:{meth}:{rq}:{label}"
+                        script = []
+                        try:
+                            g = None
+                            for st in steps:
+                                if st[0] == "build":
+                                    g = build(meth, req, st[1])
+                                    script.append(f"g = AngularGrid({rq}, method='{meth}', cache={st[1]})")
+                                else:
+                                    edit(g)
+                                    script.append("w = g.weights; w *= 2.25; p = g.points; p *= 1.5")
+                            pts, wts, attrs = grid_arrays(g)
+                        except Exception as e:  # noqa: BLE001
+                            viols.append((key, type(e).__name__, f"{'; '.join(script)} raised {type(e).__name__}: {e}",
+                                          {"reproduce": "clear the four module caches; " + "; ".join(script)}))
+                            continue
+                        rp = {"reproduce": "clear LEBEDEV_CACHE/SPHERICAL_CACHE/MAX_DET_CACHE/AHRENS_BEYLKIN_CACHE; " + "; ".join(script)
+                                           + "; judge the last g", "file": f"{meth}_{d}_{size}.npz"}
+                        r = oracle(pts, wts, attrs, d, size, d)
+                        if r["viol"]:
+                            v = first_viol(r["viol"])
+                            what = {"size": f"has (degree,size,npoints,nweights)={v.get('observed')}, advertised {v.get('expected')}",
+                                    "wsum": f"has weights summing to 4*pi{v.get('observed', 0):+.6g}",
+                                    "sphere": f"has point {v.get('index')} with |p|^2-1 = {v.get('observed')}",
+                                    "lm": f"integrates the harmonic (l,m)=({v.get('l')},{v.get('m')}) to {v.get('observed')} instead of 0"}[v["kind"]]
+                            obs = str(v["observed"]) if v["kind"] == "size" else v["observed"]
+                            viols.append((key, obs, f"after [{'; '.join(script)}] (caches cleared before) the last grid {what}",
+                                          {**rp, **{k: v[k] for k in v if k != "observed"}, "observed": obs}))
+                            continue
+                        # against the shipped file: same points, weights = file weights (x 4 pi when the file is normalised to 1)
+                        fac = 4 * math.pi if abs(fsum - 1.0) < 1e-6 else 1.0
+                        if not (pts.shape == fp.shape and np.array_equal(pts, fp) and np.all(np.abs(wts - fac * fw) <= 4 * 2.0**-52 * np.abs(wts))):
+                            mism.append((key, "file-mismatch", f"after [{'; '.join(script)}] the last grid satisfies the property but is not the shipped "
+                                         f"{meth}_{d}_{size}.npz (points / weights{' x 4 pi' if fac != 1.0 else ''})", rp))
+    finally:
+        for c, s in zip(caches, saved):
+            c.clear()
+            c.update(s)
+    ctx.cov["route_history_constructions"] = n
+    return viols, mism
 
 
 # ====================================================================== main
@@ -407,8 +529,6 @@ def run(ctx: Ctx):
         gen_broken = str(e)
         mode = dict(DEFAULT_MODE)
         ctx.gen("C02_gen.v", "From P Require Import C02_model.\n" + "".join(f"Definition mode_{m} : norm_mode := {v}.\n" for m, v in mode.items()))
-        ctx.fail("gen_rules", "gen:angular.py:normalisation/loader", None,
-                 f"the normalisation / loader code of AngularGrid is outside the translated shape: {gen_broken}", found_input=False)
     ctx.gen_units += units
     B = B_QUICK if ctx.quick else B_THOROUGH
     grids = []  # (meth, dirn, deg, size, cost)
@@ -501,6 +621,7 @@ def run(ctx: Ctx):
         rp.update(v)
         return rp
 
+    candidates = []  # (key, observed, text, replay) of every property failure found on the implementation, for broken_tie
     viol_by_grid = {}
     for key, r in sweep.items():
         meth, deg = key
@@ -542,6 +663,8 @@ def run(ctx: Ctx):
             ctx.fail(f"grid_exact_{meth}_{deg}", f"{fname}:size", str(v["observed"]),
                      f"AngularGrid(degree={deg}, method='{meth}') has (degree,size,npoints,nweights)={v['observed']}, advertised {v['expected']}",
                      replay_of(meth, deg, size, v))
+            candidates.append((f"{fname}:size", str(v["observed"]), f"AngularGrid(degree={deg}, method='{meth}') has "
+                               f"(degree,size,npoints,nweights)={v['observed']}, advertised {v['expected']}", replay_of(meth, deg, size, v)))
             continue
         # kernel-checked refutation on the file content + normalisation model
         thm = None
@@ -591,6 +714,32 @@ def run(ctx: Ctx):
         rp = replay_of(meth, deg, size, v)
         rp["kernel_refutation"] = thm
         ctx.fail(f"grid_exact_{meth}_{deg}", k, v["observed"], text, rp)
+        candidates.append((k, v["observed"], text, rp))
+    # ---------------- every construction route and short histories (cold / warm caches, degree= / size=, in-place edits)
+    t_ph = time.time()
+    try:
+        rviol, rmism = route_checks(ctx, tabs)
+    except Exception as e:  # noqa: BLE001
+        rviol, rmism = [], []
+        ctx.fail("route_history", "route:crash", type(e).__name__, f"construction route checks crashed: {type(e).__name__}: {e}", found_input=False)
+    per = {}
+    for key, obs, text, rp in rviol:
+        candidates.append((key, obs, text, rp))
+        mth = key.split(":")[1]
+        per[mth] = per.get(mth, 0) + 1
+        if per[mth] <= MAXREP:
+            ctx.fail("route_history", key, obs, text, rp)
+    if rviol and len(rviol) > sum(min(v_, MAXREP) for v_ in per.values()):
+        ctx.notes.append(f"{len(rviol)} construction routes / histories violate the property ({per}); {MAXREP} per method reported")
+    for key, obs, text, rp in rmism[:MAXREP]:
+        ctx.fail("route_history", key, obs, text, rp, found_input=False)
+    phase["routes"] = round(time.time() - t_ph, 1)
+    if gen_broken is not None:
+        # the translated shape of the normalisation / loader is gone: the violation carries the first failing input that
+        # is not a listed known finding (numeric sweep + construction routes), if there is one
+        ctx.broken_tie("gen_rules", f"the normalisation / loader code of AngularGrid is outside the translated shape: {gen_broken}",
+                       sorted(candidates, key=lambda c: (c[0].startswith("route:"), len(c[0]))))
+
     # ---------------- prove
     phase["gen"] = round(time.time() - t_sw - phase["sweep"], 1)
     t_ph = time.time()
@@ -819,7 +968,8 @@ def run(ctx: Ctx):
     ctx.cov["rule"] = (f"every constructible grid (table entry) with N*(d+1)^2 <= B={B} is checked exactly inside the Coq kernel "
                        "(all points, the weight sum and all (l,m), 1<=l<=d, |m|<=l) and tied to AngularGrid(...) by exact correspondence; "
                        "distinct = grids (kernel) + grids (correspondence) + grids (numeric oracle); grids above B are covered by the numeric "
-                       "oracle only (thorough: all, quick: l<=8 for all + full degree for a seeded subset + corpus)")
+                       "oracle only (thorough: all, quick: l<=8 for all + full degree for a seeded subset + corpus); construction routes / "
+                       "in-place-edit histories (cold and warm caches, degree= and size=) at the smallest degrees of every method are judged by the same oracle")
     ctx.trusted += [
         "np.load of the .npz files; exact float -> dyadic conversion (fractions.Fraction)",
         "ast extraction of the normalisation branch / loader of angular.py (fail closed), validated per grid by the correspondence",
